@@ -960,6 +960,7 @@ typedef struct { int n1, n2, hold, clock, horizon; const char *cls; } scen_t;
 static void scenario(const scen_t *sc) {
 	e2e_t E;
 	int j, faulted = -1, ci;
+	int second_conn_dead = MAXCS > 1 && (CS[1].cmode == CM_HUP || CS[1].cmode == CM_REFUSED || CS[1].cmode == CM_NEVER);
 	e2e_open(&E);
 	hook_budget = 3000;
 	SV.hold = sc->hold; SV.expect = sc->n1; SV.seen = 0;
@@ -981,10 +982,14 @@ static void scenario(const scen_t *sc) {
 		/* the first connection was refused / never came up: the requests waiting for it are ended with a network error
 		 * (they are not kept for a later connection) */
 		if (j < sc->n1 && (CS[0].cmode == CM_HUP || CS[0].cmode == CM_REFUSED || CS[0].cmode == CM_NEVER)) expect = X_MUST_NETERR;
+		/* the connection that served the first requests went down and the NEXT one is refused / never comes up: the later requests end
+		 * with a network error as well (what the client remembers of its former connection does not count) */
+		if (j >= sc->n1 && second_conn_dead) { judge_request(&E, j, X_MUST_NETERR, sc->cls, "later", sc->horizon); continue; }
 		judge_request(&E, j, j < sc->n1 ? expect : X_MUST_OK, sc->cls, j < sc->n1 ? "first" : "later", sc->horizon);
 	}
 	if (wire_check(sc->cls) == 0) {
 		for (j = sc->n1; j < E.n; j++) {
+			if (second_conn_dead) { if (sent_on[j] >= 0) vf_fail("data-on-dead-connection", "later request %d travelled on connection %d although no connection after the first could be established", j, sent_on[j]); continue; }
 			if (sent_on[j] < 0) vf_fail("later-request-not-sent", "later request %d never travelled whole on any connection", j);
 			else if (faulted >= 0 && sent_on[j] <= faulted) vf_fail("no-fresh-connection", "later request %d was written to connection %d, which had failed", j, sent_on[j]);
 		}
@@ -1152,6 +1157,22 @@ static void part_flt(void) {
 		env_install();
 		snprintf(cls, sizeof cls, "flt:conn:%s", MN[m]); sc.cls = cls;
 		CS[0].cmode = MM[m]; CS[0].cparam = param;
+		scenario(&sc);
+		CASE_END(1);
+	}
+	/* the first connection is fine, serves its requests and is then closed by the peer; the connection attempted for the later requests is
+	 * refused / hangs up / never comes up */
+	for (m = 0; m < 3; m++) for (n1 = 1; n1 <= 2; n1++) {
+		static const char *MN[] = {"refused", "hup", "never"};
+		static const int MM[] = {CM_REFUSED, CM_HUP, CM_NEVER};
+		scen_t sc = {n1, 2, 0, 1, 50, NULL};
+		char cls[48];
+		if (!CASE_BEGIN("flt:conn2:%s:n%d", MN[m], n1)) continue;
+		env_install();
+		snprintf(cls, sizeof cls, "flt:conn2:%s", MN[m]); sc.cls = cls;
+		ev_add(&CS[0].rx, (size_t)n1 * P_SZ, A_CLOSE, RO[n1]);
+		CS[1].cmode = MM[m];
+		CS[2].cmode = MM[m];
 		scenario(&sc);
 		CASE_END(1);
 	}
